@@ -21,6 +21,8 @@ func Generate(prop string, seed uint64, tier string) *plan.Plan {
 		p = genC05(r)
 	case "C08":
 		p = genC08(r)
+	case "C08P":
+		p = genC08Pool(r)
 	case "C06":
 		p = genC06(r)
 	case "C14":
